@@ -23,6 +23,7 @@ func init() {
 			ruleC14B6(r)
 			ruleLoopDrivers(r, "B7", "the expiry sweep stays periodic: in the transports and the segment package every receive inside a loop from a time source is a Ticker, a time.After, or a Timer that is re-armed inside the loop when its branch continues the loop", func(fn *ssa.Function) bool { return strings.HasPrefix(fnPkgPath(fn), modPath+"/transport/") || fnPkgPath(fn) == modPath+"/internal/segment" }, 2)
 			ruleNoSwallowedErrors(r, "B8", 3, true, "/internal/segment", "/transport/quic", "/transport/webtransport")
+			ruleC14B9(r)
 		},
 	})
 }
@@ -663,4 +664,72 @@ func paramRole(p *Prog, fn *ssa.Function, prm *ssa.Parameter) string {
 		return "maxIdx"
 	}
 	return ""
+}
+
+// ruleC14B9: the header of every segment announces maxSegIdx; the receiver completes the message only when all
+// maxSegIdx+1 segments have arrived. In the sender's loop over the segment indices no iteration may therefore leave
+// the loop or move on without writing its segment (an empty last segment included), except by returning an error.
+func ruleC14B9(r *Run) {
+	r.Begin("B9", "every announced segment is sent: in SendTo's loop over the segment indices, neither the next iteration nor the code after the loop is reachable from the loop body without passing the call that writes the segment", 1)
+	p := r.P
+	st := r.function("/internal/segment", "SendTo")
+	snd := r.function("/internal/segment", "send")
+	if st == nil || snd == nil {
+		return
+	}
+	name := fnName(st)
+	var inLoopCall *ssa.Call
+	allInstrs(st, func(ins ssa.Instruction) {
+		if c, ok := ins.(*ssa.Call); ok && c.Call.StaticCallee() == snd && inLoop(c) {
+			inLoopCall = c
+		}
+	})
+	if inLoopCall == nil {
+		r.Check(name+" sends inside the loop", false, p.pos(st.Pos()), name, "no call of the segment writer inside a loop")
+		return
+	}
+	loop := loopBlocks(inLoopCall.Block())
+	// loop header: the block of the loop that has a predecessor outside the loop
+	var header *ssa.BasicBlock
+	for b := range loop {
+		for _, pr := range b.Preds {
+			if !loop[pr] {
+				header = b
+			}
+		}
+	}
+	if header == nil {
+		r.Undecided(name+" loop header", "not found")
+		return
+	}
+	// body entry: the successor of the header that stays in the loop
+	var body *ssa.BasicBlock
+	for _, s := range header.Succs {
+		if loop[s] && s != header {
+			body = s
+		}
+	}
+	if body == nil {
+		r.Undecided(name+" loop body", "not found")
+		return
+	}
+	w := reachesWithoutFromBlock(body, func(x ssa.Instruction) bool {
+		if x.Block() == header && x == header.Instrs[0] {
+			return true // next iteration
+		}
+		if !loop[x.Block()] {
+			if ret, isRet := x.(*ssa.Return); isRet {
+				rs := retResults(ret)
+				return len(rs) > 0 && isNilConst(rs[len(rs)-1]) // leaving the loop successfully
+			}
+		}
+		return false
+	}, func(x ssa.Instruction) bool { return x == ssa.Instruction(inLoopCall) })
+	where := posOf(p, inLoopCall)
+	detail := "every path through the loop body writes its segment"
+	if w != nil {
+		where = posOf(p, w)
+		detail = "from the loop body " + posOf(p, w) + " is reached without writing the segment of this iteration: the headers already sent announce a segment that never arrives, so the receiver never completes the message"
+	}
+	r.Check(name+" writes every segment", w == nil, where, name, detail)
 }
